@@ -4,6 +4,9 @@ Properties without an entry are listed under not_applicable as 'not built yet'."
 import json, os
 V = os.path.dirname(os.path.dirname(os.path.abspath(__file__)))
 src = json.load(open(os.path.join(V, "tools/manifest_src.json")))
+for f in sorted(os.listdir(os.path.join(V, "tools/manifest.d"))):
+    if f.endswith(".json"):
+        src["checks"][f[:-5]] = json.load(open(os.path.join(V, "tools/manifest.d", f)))
 ids = [json.loads(l)["id"] for l in open(os.path.join(V, "properties.jsonl"))]
 m = {
  "version": 1,
